@@ -126,9 +126,11 @@ source_get_chunk(Source *source, void *buf, size_t n)
         return -EINVAL;
     }
 
+    unsigned char *data = buf;
     size_t rest = n;
     while (rest > 0) {
-        const ssize_t get = once_source_get_chunk(source, buf, rest);
+        const ssize_t get =
+            once_source_get_chunk(source, data + (n - rest), rest);
         if (get == -EINTR || get == -EAGAIN) {
             continue;
         } else if (get < 0) {
@@ -179,9 +181,11 @@ sink_put_chunk(Sink *sink, const void *buf, size_t n)
         return -EINVAL;
     }
 
+    const unsigned char *data = buf;
     size_t rest = n;
     while (rest > 0) {
-        const ssize_t put = once_sink_put_chunk(sink, buf, rest);
+        const ssize_t put =
+            once_sink_put_chunk(sink, data + (n - rest), rest);
         if (put == -EINTR || put == -EAGAIN) {
             continue;
         } else if (put < 0) {
